@@ -249,6 +249,12 @@ def r7_ipc_lock_ownership(chk: Check):
     chk.count("interprocess_lock_constructions", n)
 
 
+def r8_holdings_paired(chk: Check):
+    from . import c09
+
+    c09.r1_pairing(chk)
+
+
 RULES = [
     ("R1", "acquire critical section: recount, capacity test (refuse iff available < count), decrement and token-file creation all inside the thread and inter-process locks; refusal raises and creates nothing", r1_acquire_critical_section),
     ("R2", "recount: _update re-reads the total and subtracts every *.token file of the directory, unconditionally (no early return, no skipped file)", r2_recount),
@@ -256,5 +262,6 @@ RULES = [
     ("R4", "tokens are held for the whole run: acquired before aio_run, the wait for the process is inside the `with Locks()` block, a LockError never reaches aio_run", r4_hold_for_whole_run),
     ("R6", "one CounterToken object per name per process (create() returns the registered one whenever it exists; nobody else constructs)", r6_single_token_object),
     ("R7", "the token lock file is locked only through the token's own ipc_lock, always under the thread lock (POSIX locks are per process)", r7_ipc_lock_ownership),
+    ("R8", "a holding is given back only by the lock that took it: locks enter the Locks set once held, one fresh lock object per attempt, level protocol (= C09.R1)", r8_holdings_paired),
     ("R5", "tokens are taken, and the process spawned, under the same job lock; the watcher reads the pid file under that lock", r5_tokens_under_job_lock),
 ]
